@@ -378,23 +378,20 @@ func verifExpand(re *Regexp, rep string, m *Match, text []rune) string {
 			out += t
 			i++
 		case c >= '0' && c <= '9':
-			// longest number that names an existing group
+			// the whole decimal number names the group; an unknown number leaves the text literal
 			j := i + 1
-			num, best, bestJ := 0, -1, 0
+			num := 0
 			for j < len(r) && r[j] >= '0' && r[j] <= '9' {
 				num = num*10 + int(r[j]-'0')
 				j++
-				if _, ok := groupText(num); ok {
-					best, bestJ = num, j
-				}
 			}
-			if best < 0 {
+			t, ok := groupText(num)
+			if !ok {
 				out += "$"
 				continue
 			}
-			t, _ := groupText(best)
 			out += t
-			i = bestJ - 1
+			i = j - 1
 		case c == '{':
 			j := i + 2
 			for j < len(r) && r[j] != '}' {
@@ -405,12 +402,22 @@ func verifExpand(re *Regexp, rep string, m *Match, text []rune) string {
 				continue
 			}
 			name := string(r[i+2 : j])
-			num := re.GroupNumberFromName(name)
-			if num < 0 {
+			num, isNum := 0, name != ""
+			for _, d := range name {
+				if d < '0' || d > '9' {
+					isNum = false
+					break
+				}
+				num = num*10 + int(d-'0')
+			}
+			if !isNum {
+				num = re.GroupNumberFromName(name)
+			}
+			t, ok := groupText(num)
+			if num < 0 || !ok {
 				out += "$"
 				continue
 			}
-			t, _ := groupText(num)
 			out += t
 			i = j
 		default:
@@ -436,7 +443,7 @@ func VerifCheck_replace() {
 	}
 	rtl := re.RightToLeft()
 	startAt := verifConcrete(verifInt("startAt", -1, len(s)))
-	count := verifConcrete(verifInt("count", -1, 3))
+	count := verifConcrete(verifInt("count", -1, 2))
 	got, err := re.Replace(s, rep, startAt, count)
 	if err != nil {
 		// only a malformed startAt may be rejected
@@ -449,6 +456,11 @@ func VerifCheck_replace() {
 			}
 		}
 		verifAssert("error-only-for-misaligned-startAt", !ok && startAt != len(s) && startAt != -1)
+		return
+	}
+	if count == 0 {
+		verifAssert("Replace(count=0)==input", got == s)
+		verifReach("end")
 		return
 	}
 	// fold over the match sequence
@@ -527,3 +539,157 @@ func VerifCheck_replace() {
 	}
 	verifReach("end")
 }
+
+// ---------------------------------------------------------------- C10: no panic, no hang
+
+// verifExercise runs the match APIs of re on text; any Go run-time panic escapes to the engine.
+func verifExercise(re *Regexp, s string) {
+	rs := []rune(s)
+	if _, err := re.MatchString(s); err != nil {
+		verifExpectedErr(err)
+	}
+	m, err := re.FindStringMatch(s)
+	if err != nil {
+		verifExpectedErr(err)
+	}
+	for i := 0; m != nil && i < len(rs)+2; i++ {
+		_ = m.String()
+		gs := m.Groups()
+		for gi := range gs {
+			_ = gs[gi].String()
+			gs[gi].ByteRange()
+		}
+		m, err = re.FindNextMatch(m)
+		if err != nil {
+			verifExpectedErr(err)
+		}
+	}
+	if _, err := re.FindRunesMatch(rs); err != nil {
+		verifExpectedErr(err)
+	}
+	if _, err := re.FindAllStringIndex(s, -1); err != nil {
+		verifExpectedErr(err)
+	}
+	if _, err := re.Replace(s, "<$1$&>", -1, -1); err != nil {
+		verifExpectedErr(err)
+	}
+	if _, err := re.Split(s, -1); err != nil {
+		verifExpectedErr(err)
+	}
+}
+
+func verifExpectedErr(err error) {
+	if err == ErrBacktrackingStackLimit {
+		return
+	}
+	verifNote(err.Error())
+	verifFail("unexpected-error", "an error other than timeout / stack limit / documented argument error")
+}
+
+// pattern = seed with the bytes at the given positions replaced by symbolic bytes
+func VerifCheck_mutate() {
+	seed := verifParam("pattern")
+	b := []byte(seed)
+	for i, ps := range verifSplitComma(verifParam("positions")) {
+		p := verifAtoi(ps)
+		if p < len(b) {
+			b[p] = verifByte("m" + strconv.Itoa(i))
+		}
+	}
+	opts := verifParamInt("options")
+	var ro RegexOptions
+	if verifParam("symmask") != "" {
+		// the option subset is a solver variable over the defined option bits
+		mk := verifInt("mask", 0, 0x7ff)
+		verifAssume(mk&^(0x1|0x2|0x4|0x10|0x20|0x40|0x100|0x200|0x400) == 0)
+		ro = RegexOptions(mk)
+	} else {
+		ro = RegexOptions(opts)
+	}
+	co := []CompileOption{ro}
+	if verifParam("copts") == "b" {
+		co = append(co, OptionDisableCharClassASCIIBitmap())
+	}
+	re, err := Compile(string(b), co...)
+	if err != nil {
+		verifReach("parse-error")
+		return
+	}
+	verifReach("compiled")
+	for _, s := range verifSplitComma(verifParam("texts")) {
+		verifExercise(re, s)
+	}
+	if k := verifParamInt("symtext"); k > 0 {
+		verifExercise(re, string(verifBytes("t", k)))
+	}
+	verifReach("end")
+}
+
+// API arguments: fixed pattern, symbolic subject bytes, out-of-range offsets and counts
+func VerifSetup_args() {
+	verifRE = verifCompile(verifParam("pattern"), verifParamInt("options"), verifParam("copts"))
+}
+
+func verifArgErr(err error) {
+	if err == nil || err == ErrBacktrackingStackLimit {
+		return
+	}
+	// documented argument errors are returned as errors, never as panics
+	verifReach("argument-error")
+}
+
+func VerifCheck_args() {
+	n := verifParamInt("n")
+	s := string(verifBytes("b", n))
+	rs := []rune(s)
+	re := verifRE
+	startAt := verifConcrete(verifInt("startAt", -2, n+2))
+	count := verifConcrete(verifInt("count", -2, 2))
+	m, err := re.FindStringMatchStartingAt(s, startAt)
+	verifArgErr(err)
+	if m != nil {
+		_ = m.String()
+		m.ByteRange()
+	}
+	m, err = re.FindRunesMatchStartingAt(rs, startAt)
+	verifArgErr(err)
+	if m != nil {
+		verifReach("match")
+		_ = m.String()
+		_ = m.Runes()
+		gs := m.Groups()
+		for gi := range gs {
+			_ = gs[gi].String()
+		}
+		_, err = re.FindNextMatch(m)
+		verifArgErr(err)
+	}
+	_, err = re.Replace(s, verifParam("rep"), startAt, count)
+	verifArgErr(err)
+	_, err = re.ReplaceFunc(s, func(m Match) string { return m.String() }, startAt, count)
+	verifArgErr(err)
+	_, err = re.Split(s, count)
+	verifArgErr(err)
+	_, err = re.FindAllStringIndex(s, count)
+	verifArgErr(err)
+	_, err = re.FindAllRunesIndex(rs, count)
+	verifArgErr(err)
+	verifReach("end")
+}
+
+// Escape / Unescape / replacement parsing on arbitrary bytes
+func VerifCheck_argsescape() {
+	n := verifParamInt("n")
+	s := string(verifBytes("b", n))
+	_ = Escape(s)
+	if _, err := Unescape(s); err != nil {
+		verifReach("unescape-error")
+	}
+	re := verifRE
+	if _, err := re.Replace("ab", s, -1, -1); err != nil {
+		verifReach("replacement-error")
+	}
+	verifReach("end")
+}
+
+func VerifSetup_argsescape() { VerifSetup_args() }
